@@ -174,8 +174,8 @@ def ev_index(case, rec):
 
 
 SUBCHECKS = [
-    Sub('vincdir', gen_dir, ev_dir, chunk=1, floor=500, guard=True),
-    Sub('vincinv', gen_inv, ev_inv, chunk=4, floor=500, guard=True),
+    Sub('vincdir', gen_dir, ev_dir, chunk=1, floor=500, guard=True, envs=3),
+    Sub('vincinv', gen_inv, ev_inv, chunk=4, floor=500, guard=True, envs=3),
     Sub('index', gen_index, ev_index, chunk=1, floor=1, parallel=False, guard=True),
 ]
 
